@@ -26,13 +26,13 @@ spec/SSHAuthClient_MC.tla / _Gen.tla (bounded instances, generator), spec/SSHAut
 import json, os
 import vlib
 
-# Signatures of the two defects repaired in /repo (631f7ef, 97a1b8c; known_findings.json: fixed).  The
-# model describes the repaired code (FixO1 = FixRetry = TRUE); should either defect return, the real
+# Signatures of the three defects repaired in /repo (631f7ef, 97a1b8c, 226918a; known_findings.json: fixed).  The
+# model describes the repaired code (FixO1 = FixRetry = FixRetryList = TRUE); should either defect return, the real
 # traces diverge from the prediction, the monitor rejects them and the violation carries these signatures.
 SIG_O1 = "Q3:publickey-query-with-empty-algorithm"
 SIG_RETRY = "Q1r:retry-of-method-no-longer-listed"
-# Open finding C34-R2 (known_findings.json): a RetryableAuthMethod around PublicKeys loses the method list a rejected
-# signature brought when a later try returns no list; the next method is then picked from an older list.
+# C34-R2 (repaired by 226918a): a RetryableAuthMethod around PublicKeys lost the method list a rejected signature
+# brought when a later try returned no list; the next method was then picked from an older list.
 SIG_RETRYLIST = "Q1:stale-list-after-retried-publickey"
 
 
@@ -201,13 +201,11 @@ def run(ctx):
         for cfg in ["Main3", "Deep", "Bound", "RetryMC3", "RetryDeep", "O1MC3", "RetryListFixed"]:
             r = ctx.tlc_must_hold("SSHAuthClient_MC", cfg="SSHAuthClient_%s.cfg" % cfg, timeout=1500, heap="6g")
             ctx.log("MC %s: %d distinct states" % (cfg, r.distinct))
-        # documentation of the two repaired defects: the model of the old behaviour (FixO1 / FixRetry = FALSE)
-        # must still exhibit the counterexamples -- this shows the clauses Q3 / Q1r can fail, nothing about the code
-        # (DocRetryList: the open finding C34-R2 -- the model of the code as it is violates Q1 for a retryable publickey entry;
-        #  the generators check Q1 outside those configurations (Q1Guard) and the real runs are judged by the monitor)
+        # documentation of the three repaired defects: the model of the old behaviour (FixO1 / FixRetry / FixRetryList =
+        # FALSE) must still exhibit the counterexamples -- this shows the clauses Q3 / Q1r / Q1 can fail, nothing about the code
         for cfg, inv in [("DocO1", "Q3"), ("DocRetry", "Q1r"), ("DocRetryList", "Q1")]:
             r = ctx.tlc("SSHAuthClient_MC", cfg="SSHAuthClient_%s.cfg" % cfg, timeout=900, expect_violation=True, count=False,
-                        note="design-level counterexample for %s (documentation of a finding; verdicts come from real runs only)" % inv)
+                        note="old-behaviour model: design-level counterexample for %s (documentation only)" % inv)
             if r.violated != inv:
                 raise vlib.Infra("the model %s should violate %s, TLC says %r" % (cfg, inv, r.violated))
         # vacuity: every action of the specification is taken in the quick generator's instance
